@@ -136,6 +136,35 @@ def check_contains_and_strategies(ctx, tee, case):
                 ctx.fail("strategy-reapply", f"{name}: re-applying {strat!r} to the parent of key {(start, ends)} raised {describe_exc(e)}", f"strategy-reapply/{name}/raises")
                 continue
             ctx.check(labels == tuple(ends), "strategy-reapply", f"{name}: strategy {strat!r} for key {(start, ends)} gives non-empty children {labels} when re-applied")
+    # the equivalence store on its own (a key can live in both stores: a one-way rule
+    # recorded before or after a two-way rule with the same parent and child). Both
+    # databases promise that what this store hands back makes a two-way rule
+    # (RuleDBBase.add stores only two-way rules there; RecomputingDict: "if only equiv
+    # is set to true the returned strategy will only create two way rules")
+    for name, db in (("RuleDB", a), ("RuleDBForgetStrategy", b)):
+        try:
+            eqv_keys = sorted(db.eqv_rule_to_strategy)[:80]
+        except Exception as e:
+            ctx.fail("strategy-lookup", f"{name}: listing the equivalence store raised {describe_exc(e)}", f"strategy-lookup/{name}/iter")
+            continue
+        both = 0
+        for start, ends in eqv_keys:
+            parent = cdb.get_class(start)
+            if parent.is_empty():
+                continue
+            both += (start, ends) in db.rule_to_strategy
+            try:
+                strat = db.eqv_rule_to_strategy[(start, ends)]
+                rule = strat(parent)
+                two_way = rule.is_two_way()
+                labels = tuple(sorted(cdb.get_label(c) for c in rule.children if not brute.is_empty(c, 6)))
+            except Exception as e:
+                ctx.fail("eqv-strategy", f"{name}: equivalence-store strategy for key {(start, ends)} raised {describe_exc(e)}", f"eqv-strategy/{name}/{type(e).__name__}")
+                continue
+            ctx.check(two_way, "eqv-strategy", f"{name}: eqv_rule_to_strategy[{(start, ends)}] hands back {strat!r}, whose rule is not two-way")
+            ctx.check(labels == tuple(ends), "eqv-strategy", f"{name}: eqv_rule_to_strategy[{(start, ends)}] = {strat!r} gives non-empty children {labels} when re-applied")
+        if both:
+            ctx.label("key-in-both-stores")
 
 
 def run_case(case, ctx):
